@@ -73,6 +73,14 @@ func ibRun(args []string) error {
 			switch kind {
 			case "exact":
 				binary.BigEndian.PutUint64(b[n-8:], uint64(n))
+			case "exactmagic":
+				// a file that LOOKS signed (the integrity-block magic where a block would have it) but whose trailing length
+				// covers the whole file: by the format it carries no block, and signing it wraps it like any other file
+				if n >= 18 {
+					b[0], b[1] = 0x83, 0x48
+					copy(b[2:10], []byte{0xf0, 0x9f, 0x96, 0x8b, 0xf0, 0x9f, 0x93, 0xa6})
+				}
+				binary.BigEndian.PutUint64(b[n-8:], uint64(n))
 			case "bigger":
 				binary.BigEndian.PutUint64(b[n-8:], uint64(n+1+r.Intn(100)))
 			case "smaller":
@@ -92,7 +100,7 @@ func ibRun(args []string) error {
 	if thorough {
 		sizes = append(sizes, 0, 3, 7, 64, 65536, 300000)
 	}
-	for _, kind := range []string{"exact", "bigger", "smaller", "huge", "random"} {
+	for _, kind := range []string{"exact", "exactmagic", "bigger", "smaller", "huge", "random"} {
 		for _, n := range append(sizes, 0, 7) {
 			for si, seq := range stratSeqs {
 				if kind != "exact" && si > 0 {
